@@ -1,16 +1,20 @@
 #!/bin/sh
-# usage: tools/coqchk_all.sh [out-file]      Re-checks every compiled property file (and everything it depends on)
-# with Coq's independent checker and records the axioms each relies on.  Takes several minutes; run after ./setup.sh.
-OUT=${1:-/verif/evidence/coqchk.txt}
+# usage: tools/coqchk_all.sh [jobs]     Re-checks every compiled property file (and everything it depends on) with
+# Coq's independent checker (coqchk -o) and records the axioms each relies on in evidence/coqchk.txt.
+# Takes a minute or more and up to ~5 GB per file; run after ./setup.sh.  Not part of any registered check.
+J=${1:-4}
+OUT=/verif/evidence/coqchk.txt
+T=$(mktemp -d /var/tmp/coqchk.XXXXXX)
 cd /verif/coq || exit 2
-: > "$OUT.tmp"
-rc=0
-for f in Props/Properties_*.v; do
-  m=$(basename "$f" .v)
-  [ -f "Props/$m.vo" ] || { echo "$m: not compiled" >> "$OUT.tmp"; rc=1; continue; }
-  echo "== AV.Props.$m" >> "$OUT.tmp"
-  timeout 1800 coqchk -o -silent -Q . AV "AV.Props.$m" 2>&1 | grep -v "^$" | sed -n '/CONTEXT SUMMARY/,$p' >> "$OUT.tmp" || rc=1
+ls Props/Properties_*.v | sed 's/.*\/\(.*\)\.v/\1/' | xargs -P "$J" -I{} sh -c '
+  if [ -f Props/{}.vo ]; then
+    timeout 3600 coqchk -o -silent -Q . AV AV.Props.{} > '"$T"'/{}.txt 2>&1; echo "exit=$?" >> '"$T"'/{}.txt
+  else echo "not compiled" > '"$T"'/{}.txt; fi'
+: > "$OUT"
+for f in $(ls "$T" | sort); do
+  echo "== AV.Props.${f%.txt}" >> "$OUT"
+  sed -n "/CONTEXT SUMMARY/,\$p" "$T/$f" | grep -v "^$" >> "$OUT"
+  grep -q "CONTEXT SUMMARY" "$T/$f" || tail -5 "$T/$f" >> "$OUT"
 done
-mv "$OUT.tmp" "$OUT"
-grep -c "Axioms: <none>" "$OUT"
-exit $rc
+rm -rf "$T"
+echo "files: $(grep -c '^== ' $OUT)  axiom-free: $(grep -c 'Axioms: <none>' $OUT)"
